@@ -25,7 +25,7 @@ class Native:
     def __init__(self, features='full', profile='debug'):
         d = 'native' if features == 'full' else 'native_nd'
         b = 'vnative' if features == 'full' else 'vnative_nd'
-        self.path = os.path.join(VERIF, d, 'target', profile, b)
+        self.path = os.path.join(os.environ.get('VERIF_NATIVE_BASE', VERIF), d, 'target', profile, b)
         self.features = features
         self.profile = profile
         self.p = None
